@@ -43,6 +43,8 @@ fn run_check(id: &str, rep: &mut Report) -> bool {
         "C08" => checks::c08::run(rep),
         "C09" => checks::c09::run(rep),
         "C11" => checks::c11::run(rep),
+        "C13" => checks::c13::run(rep),
+        "C14" => checks::c14::run(rep),
         "C17" => checks::c17::run(rep),
         "C18" => checks::c18::run(rep),
         "C19" => checks::c19::run(rep),
@@ -114,6 +116,8 @@ fn main() {
                 "C08" => checks::c08::replay(&v["case"], &mut rep),
                 "C09" => checks::c09::replay(&v["case"], &mut rep),
                 "C11" => checks::c11::replay(&v["case"], &mut rep),
+                "C13" => checks::c13::replay(&v["case"], &mut rep),
+                "C14" => checks::c14::replay(&v["case"], &mut rep),
                 "C17" => checks::c17::replay(&v["case"], &mut rep),
                 "C18" => checks::c18::replay(&v["case"], &mut rep),
                 "C19" => checks::c19::replay(&v["case"], &mut rep),
